@@ -19,6 +19,9 @@ def athlon_work(chunk):
     if len(chunk) > 4:
         g, e = chunk[4]          # a letter-case spelling of the same row
     score = G['score']
+    esaa = age == 'esaa'                  # the English Schools option of the boys' 800 m
+    if esaa:
+        age = None
     timed = c01.kind_of(G, G['rows'][key]['ev']) == 'timed'
     acc = Acc()
     prev = None
@@ -26,7 +29,7 @@ def athlon_work(chunk):
         acc.n += 1
         v = cs / 100.0
         try:
-            got = score(g, e, v, age) if age else score(g, e, v)
+            got = score(g, e, v, None, True) if esaa else score(g, e, v, age) if age else score(g, e, v)
         except Exception as ex:
             acc.bad('C05:athlon:raises-%s' % type(ex).__name__, dict(gender=g, event=e, mark=v, age=age), repr(ex))
             prev = None
@@ -75,7 +78,10 @@ def run(tier):
             n = max(1, (top + 1) // (20000 if age is None else 6000))
             for a, b in common.split_range(0, top + 1, n):
                 chunks.append((k, max(0, a - 1), b - 1, age))
-    merge(rep, pmap(athlon_work, chunks), part='combined events (ages %r)' % (ages,))
+    hi800 = c01.grid_hi(G, ('M', '800'))
+    for a, b in common.split_range(0, hi800 + 1, 8):
+        chunks.append((('M', '800'), max(0, a - 1), b - 1, 'esaa'))
+    merge(rep, pmap(athlon_work, chunks), part='combined events (ages %r, and the ESAA option of M 800)' % (ages,))
     # letter-case spellings of the same rows on the whole grid (no age, and one band)
     chunks2 = []
     for k in sorted(G['rows']):
